@@ -35,6 +35,7 @@ fn main() {
         "behave_matrix" => behave::run_matrix(tier, seed, &mut out),
         "attrroute" => behave::run_attrroute(tier, seed, &mut out),
         "guardden" => exprs::run_guardden(tier, seed, &mut out),
+        "entnames" => lit::run_entnames(&mut out),
         "determinism" => determinism::run(tier, seed, &mut out),
         "exprgen" => exprs::run_gen(tier, seed, &mut out),
         "exprval" => exprs::run_val(tier, seed, &mut out),
